@@ -81,11 +81,16 @@ pub fn emit_graph(files: &std::collections::HashMap<&'static str, String>) -> Va
   let mut defined: BTreeMap<String, usize> = BTreeMap::new();
   let mut mentions: BTreeSet<String> = BTreeSet::new();
   let mut parse_errors = vec![];
+  // scope "methods of the client impl": name, request type and return type of every client method
+  let mut client_methods: Vec<Value> = vec![];
   for (fname, code) in files {
     let f = facts::file_facts(code);
     if let Some(e) = f.get("parse_error") {
       parse_errors.push(format!("{fname}: {e}"));
       continue;
+    }
+    for m in f["client_methods"].as_array().into_iter().flatten() {
+      client_methods.push(json!({"file": fname, "name": m["name"], "request_ty": m["request_ty"], "output": m["output"], "http": m["http"]}));
     }
     for m in f["mentions"].as_array().into_iter().flatten() {
       if let Some(s) = m.as_str() {
@@ -144,6 +149,7 @@ pub fn emit_graph(files: &std::collections::HashMap<&'static str, String>) -> Va
     "defined": defined,
     "mentions": mentions.into_iter().collect::<Vec<_>>(),
     "parse_errors": parse_errors,
+    "client_methods": client_methods,
   })
 }
 
@@ -191,6 +197,19 @@ pub fn eval(op: &str, input: &mut Value) -> OpResult {
       };
       let mut g = emit_graph(&files);
       g["warnings"] = stats["warnings"].clone();
+      if input["want"].as_array().is_some_and(|a| a.iter().any(|x| x == "registry")) {
+        // the stable id the generator gave every operation (HTTP paths and webhooks), in registration order
+        let spec_text = match &input["spec"] {
+          Value::String(s) => s.clone(),
+          other => other.to_string(),
+        };
+        let spec: oas3::Spec = serde_json::from_str::<oas3::OpenApiV3Spec>(&spec_text).map_err(|e| format!("spec-parse: {e}"))?;
+        let only = set_of(&input["only"]);
+        let exclude = set_of(&input["exclude"]);
+        let registry = OperationRegistry::with_filters(&spec, only.as_ref(), exclude.as_ref());
+        g["registry"] = Value::Array(registry.operations().map(|e| json!([e.stable_id, e.method.as_str(), e.path])).collect());
+        g["stats"] = json!({"operations": stats["operations"], "webhooks": stats["webhooks"], "client_methods": stats["client_methods"]});
+      }
       if input["want"].as_array().is_some_and(|a| a.iter().any(|x| x == "code")) {
         g["code"] = json!(files.iter().map(|(k, v)| ((*k).to_string(), v.clone())).collect::<BTreeMap<_, _>>());
       }
